@@ -60,6 +60,10 @@ def _sel(rng, focus=None):
     return k, KINDS[k]
 
 
+OPENFAULT_REL = {"doc-small": "small.txt", "doc-large": "big.txt", "html": "page.html", "gz": "z.txt.gz",
+                 "tal": "t.html.tal", "mbox-folder": "mail.mbox"}
+
+
 def gen_request(rng, focus=None):
     """One request from the grammar.  Returns dict(data=latin-1 str, tls, half_close, label, kind)."""
     r = rng.random()
@@ -71,8 +75,13 @@ def gen_request(rng, focus=None):
             p = rng.choice(["gopher!", "gopher$", "gopher+", "http", "gopher"])   # info-bearing views
         search = rng.choice([None, None, None, "needle", "two words"])
         req, tls = proto.make_request(p, sel, search)
-        return {"data": req.decode("latin-1"), "tls": tls, "half_close": half_close,
-                "label": "valid-" + p, "kind": kind}
+        rq = {"data": req.decode("latin-1"), "tls": tls, "half_close": half_close,
+              "label": "valid-" + p, "kind": kind}
+        if kind in OPENFAULT_REL and rng.random() < 0.15:
+            # the file can be stat'ed but not opened (mode 000 for a server that is not root, EMFILE, EIO)
+            rq["openfault"] = rng.choice(["EACCES", "EMFILE", "EIO"])
+            rq["label"] = "valid-openfault-" + p
+        return rq
     kind, sel = _sel(rng, focus)
     selb = sel.encode()
     if focus is not None and rng.random() < 0.35:
@@ -231,7 +240,10 @@ def gen(seed, index, tier):
                         ["zip-html-a", "zip-html-b", "zip-web-listing"],
                         ["mbox-message", "mbox-message-1", "mbox-folder", "maildir-message", "maildir-message-2"],
                         ["zip-member", "zip2-member", "zip-listing", "zip2-listing"],
-                        ["html", "tal", "gz", "script", "pyg"]])
+                        ["html", "tal", "gz", "script", "pyg"],
+                        ["maildir-new", "maildir-folder", "maildir-message", "maildir-cur", "maildir-message-2"],
+                        ["zip3-listing", "zip3-enc", "zip3-d64", "zip3-ok", "zip-gz-member", "zip-member"],
+                        ["gophermap", "url-named-file", "menu"]])
     for i in range(n):
         rq = gen_request(rng, focus)
         nb = len(rq["data"])
@@ -285,9 +297,17 @@ def _one(run, rq, tls_configured):
     nlog = len(run.exception_records())
     nhe = len(run.handle_errors)
     npc = len(run.protocol_choices)
+    flt = None
+    if rq.get("openfault"):
+        flt = simfs.Fault("open", OPENFAULT_REL[rq["kind"]], rq["openfault"], nth="all", mode="r")
+        run.fs.faults.append(flt)
     c = run.client(data, tls=tls, segments=rq.get("segments"), delays=rq.get("delays"),
                    half_close=rq["half_close"])
     st = run.go()
+    if flt is not None:
+        run.fs.faults.remove(flt)
+        if flt.fired:
+            run.count("open_fault_fired")
     return c, st, nlog, nhe, npc
 
 
@@ -407,6 +427,8 @@ def execute(sc, tape=None):
             for (i, rq, c, resp, cls, nlog, nhe, pre_cache, st) in recs:
                 key = (rq["data"], rq["tls"], rq["half_close"])
                 data = rq["data"].encode("latin-1")
+                if rq.get("openfault"):
+                    continue   # answered under an injected fault: the reference answer is not the yardstick
                 if key not in memo:
                     fresh = os.path.join(base, "fresh")
                     shutil.rmtree(fresh, ignore_errors=True)
